@@ -47,6 +47,9 @@ def plans(tier, seed):
         [("take", ["o1", "o2"]), ("drop", ["o1", "o2"]), ("take", ["o2", "o2"]), ("flag", ["o3"])],
         [("sweep", ["o1"]), ("take", ["o2", "o3"]), ("drop", ["o1", "o2"])],
         [("flag", ["o2"])],
+        # three consecutive actions of three agents that can share one step
+        [("flag", ["o1"]), ("flag", ["o2"]), ("flag", ["o3"])],
+        [("audit", ["o1"]), ("audit", ["o2"]), ("audit", ["o3"]), ("flag", ["o1"])],
         # two agents without a common object that write the same zero-arity fluent, one of them conditionally on its value
         [("charge", ["o3"]), ("burn", ["o1", "o1", "o2"])],
         [("burn", ["o2", "o2", "o1"]), ("charge", ["o1"]), ("flag", ["o3"])],
